@@ -342,6 +342,89 @@ def default_checks(rep):
             rep.violation("defaults", "serial:default-exception:" + name, {"exc": repr(e)[:200]})
 
 
+def _units_systems_of(o, seen=None):
+    """every UnitsSystem object reachable from an object a reader returned"""
+    seen = set() if seen is None else seen
+    out = []
+    if id(o) in seen or o is None:
+        return out
+    seen.add(id(o))
+    us = getattr(o, "units_system", None)
+    if isinstance(us, UnitsSystem):
+        out.append(us)
+    for name in ("network", "space", "system"):
+        out += _units_systems_of(getattr(o, name, None), seen)
+    for name in ("species", "reactions", "nodes", "edges"):
+        for x in (getattr(o, name, None) or []):
+            out += _units_systems_of(x, seen)
+    return out
+
+
+def reader_independence_checks(rep):
+    """Reading a description gives an object of its own: editing it in place - here the components of every units system it
+    holds - does not change what the same description reads as afterwards (omitted keys keep taking the documented defaults)."""
+    net = {"species": [{"label": "A", "density": 2, "D": 1}], "reactions": [{"eq": "A -> ", "k+": 1}]}
+    cases = [
+        ("network", lambda: rdnetwork_from_dict(json.loads(json.dumps(net))), strengths.rdnetwork_to_dict),
+        ("grid", lambda: rdspace_from_dict({"w": 2, "cell_vol": 2}), strengths.rdspace_to_dict),
+        ("graph", lambda: rdspace_from_dict({"type": "graph", "nodes": [{"volume": 2}, {}], "edges": [{"nodes": [0, 1], "distance": 3}]}),
+         strengths.rdspace_to_dict),
+        ("system-grid", lambda: rdsystem_from_dict({"network": json.loads(json.dumps(net)), "space": {"w": 2, "cell_vol": 2}}),
+         strengths.rdsystem_to_dict),
+        ("system-graph", lambda: rdsystem_from_dict({"network": json.loads(json.dumps(net)),
+                                                     "space": {"type": "graph", "nodes": [{"volume": 2}, {}], "edges": [{"nodes": [0, 1]}]}}),
+         strengths.rdsystem_to_dict),
+        ("system-without-space", lambda: rdsystem_from_dict({"network": json.loads(json.dumps(net))}), strengths.rdsystem_to_dict),
+        ("script", lambda: rdscript_from_dict({"system": {"network": json.loads(json.dumps(net)), "space": {"type": "graph", "nodes": [{}], "edges": []}},
+                                               "t_sample": [0, 2], "rng_seed": 5}), strengths.rdscript_to_dict),
+    ]
+    # a reader leaves the dictionary it is given as it found it: the same dictionary object reads the same a second time
+    import copy as _copy
+    net_d = json.loads(json.dumps(net))
+    inputs = [
+        ("network", net_d, rdnetwork_from_dict, strengths.rdnetwork_to_dict),
+        ("grid", {"type": "grid", "w": 2, "cell_vol": 2, "units": {"space": "nm"}}, rdspace_from_dict, strengths.rdspace_to_dict),
+        ("graph", {"type": "graph", "nodes": [{"volume": 2}, {}], "edges": [{"nodes": [0, 1], "distance": 3}], "units": {"space": "nm"}},
+         rdspace_from_dict, strengths.rdspace_to_dict),
+        ("system", {"network": _copy.deepcopy(net_d), "space": {"type": "graph", "nodes": [{"volume": 2}, {}], "edges": [{"nodes": [0, 1]}]},
+                    "units": {"time": "ms"}}, rdsystem_from_dict, strengths.rdsystem_to_dict),
+        ("script", {"system": {"network": _copy.deepcopy(net_d), "space": {"type": "graph", "nodes": [{}], "edges": []}}, "t_sample": [0, 2],
+                    "rng_seed": 5, "units": {"time": "ms"}}, rdscript_from_dict, strengths.rdscript_to_dict),
+    ]
+    for name, d, reader, to_dict in inputs:
+        rep.case(["reader-leaves-input", name])
+        before = json.dumps(d, sort_keys=True)
+        try:
+            one = jnorm(to_dict(reader(d)))
+            if json.dumps(d, sort_keys=True) != before:
+                rep.violation("defaults", "serial:reader-modifies-the-dictionary-it-is-given:" + name,
+                              {"given": json.loads(before), "afterwards": jnorm(d)})
+                continue
+            two = jnorm(to_dict(reader(d)))
+            if one != two:
+                rep.violation("defaults", "serial:same-dictionary-reads-differently-the-second-time:" + name, {"first": one, "second": two})
+        except Exception as e:  # noqa
+            rep.violation("defaults", "serial:reader-leaves-input-exception:" + name, {"exc": repr(e)[:200]})
+    for name, read, to_dict in cases:
+        rep.case(["reader-independence", name])
+        try:
+            first = read()
+            before = jnorm(to_dict(first))
+            edited = 0
+            for us in _units_systems_of(first):
+                us.space, us.time, us.quantity = "nm", "ms", "mol"
+                edited += 1
+            again = jnorm(to_dict(read()))
+        except Exception as e:  # noqa
+            rep.violation("defaults", "serial:reader-independence-exception:" + name, {"exc": repr(e)[:200]})
+            continue
+        if edited == 0:
+            raise MachineryError("no units system found in what the %s reader returned" % name)
+        if again != before:
+            rep.violation("defaults", "serial:later-read-depends-on-edits-of-an-earlier-result:" + name,
+                          {"first_read": before, "read_after_editing_the_first_result": again})
+
+
 def run(tier, selftest=False, only=None):
     rep = Report(PROP, tier)
     rep.rule = ("model: all units-declaration trees over the 8 nesting levels (recursive reader rule = nearest definite "
@@ -387,6 +470,8 @@ def run(tier, selftest=False, only=None):
     desc2 = serial.Describer(sc, systems, rng, explicit_p=0.2, aliases=None)
     multifile_checks(rep, rng, desc2, trees, tmp, 40 if tier == "quick" else 500)
     default_checks(rep)
+    with rep.guard("reader-independence", None):
+        reader_independence_checks(rep)
     with rep.guard("trajectory", None):
         trajectory_name_checks(rep, tmp)
     shutil.rmtree(tmp, ignore_errors=True)
